@@ -15,7 +15,9 @@ RULE = ("seeded generator: format v1 (BAT in sectors) / v2 (BAT in clusters), cl
         "chain (depth ≤ 3); requests: cluster-edge±1, multi-cluster, tail, full, random as one history. Second family (hdd): "
         ".hdd directories opened through HDD(path).open() — 2..5 storages mixing plain, v1 and v2 expanding images (images larger "
         "than their storage range, snapshot chains of depth ≤ 2), DiskDescriptor.xml listing the storages in any order (mostly not "
-        "ascending by Start), requests straddling every storage boundary. Non-trivial = model WF, both sparse and allocated "
+        "ascending by Start), requests straddling every storage boundary; fixed grid of 32 directories whose Plain image (first / last / "
+        "every storage, or the plain root below an expanding snapshot layer) holds guest bytes that begin with the signature of an expanding "
+        "image (signature only, a whole nested v1 / v2 image, one cut off by the end of the storage, a near miss): read as the file bytes. Non-trivial = model WF, both sparse and allocated "
         "clusters, a request spanning ≥ 2 clusters (hdd: ≥ 2 storages and a request crossing a storage boundary); distinct recipe hash.")
 ASSUMPTIONS = ["dissect.util AlignedStream as transcribed", "cstruct uint32[] array = little-endian u32 list", "cached_property bat (file immutable)"]
 TIMEOUT_CASE = 20.0
@@ -187,6 +189,37 @@ def generate(seed, tier):
         t = gen_hdd.Truth(r)
         cases.append({"id": f"h{i}", "fam": "hdd", "recipe": r, "align": hrng.choice([8192] * 5 + [512, 4096, 65536]),
                       "queries": [["s", 0, 2]] + gen_hdd.gen_queries(hrng, t, 8 if tier == "quick" else 14)})
+    cases += plain_head_cases(seed, tier)
+    return cases
+
+
+def plain_head_cases(seed, tier, tag="hp"):
+    """Directed family (fixed grid, every run): a Plain image is the guest's disk byte for byte — also when the guest's first bytes
+    are the signature of an expanding image (only the signature / a whole nested v1 or v2 image / one that is cut off by the end of
+    the storage / a near miss), in the first, the last, a middle or every storage of a split disk, and as the plain root below an
+    expanding snapshot layer. The descriptor's <Type> decides how an image is read; the requests start at every storage start."""
+    import gen_hdd
+    rng = random.Random(f"C06plainhead/{seed}/{tier}")
+    grid = [(kind, where, 1) for kind in gen_hdd.PLAIN_HEADS for where in ("first", "last", "all")] + \
+           [(kind, "middle", 2) for kind in gen_hdd.PLAIN_HEADS]
+    if tier != "quick":
+        grid = grid * 6
+    cases = []
+    for i, (kind, where, depth) in enumerate(grid):
+        for attempt in range(60):
+            r = gen_hdd.gen_recipe(rng, tier, max_depth=depth, min_depth=depth, nst=rng.choice([2, 3, 3, 4]), disorder=0.5, plain_head=(kind, where))
+            heads = [(im, (s["end"] - s["start"] + im["extra"]) * 512) for s in r["storages"] for im in s["images"] if im.get("head")]
+            fits = [len(gen_hdd.plain_head_bytes(im["head"])) <= n for im, n in heads]
+            # a complete nested image fits into its storage, a cut one does not
+            if kind.endswith("-cut") and not any(fits) or kind.startswith("hds") and not kind.endswith("-cut") and all(fits) or not kind.startswith("hds"):
+                break
+        t = gen_hdd.Truth(r)
+        qs = [["s", 0, 2], ["o", 0, t.size]]
+        for st in r["storages"]:
+            a, e = st["start"] * 512, st["end"] * 512
+            qs += [["o", a, rng.choice([16, 64, 512, 4096])], ["o", max(0, a - rng.choice([1, 512])), rng.choice([700, e - a + 513])]]
+        cases.append({"id": f"{tag}{i}", "fam": "hdd", "recipe": r, "align": [8192, 8192, 512, 4096, 65536][i % 5],
+                      "queries": qs + gen_hdd.gen_queries(rng, t, 4)})
     return cases
 
 
@@ -212,8 +245,9 @@ def build_hdd(case):
         toks.append(f"{a}:{e}:{kind}:{names}")
     kinds = sorted({("plain" if l[0] == "P" else f"v{l[1]['layer']['ver']}") for _, ls in t.st for l in ls})
     order = r["xml_order"]
+    heads = sorted({"plain-starts-with-" + im["head"]["kind"] for s in r["storages"] for im in s["images"] if im.get("head")})
     b = Built({ids[n]: im for n, im in t.files.items()}, truth,
-              {"branches": ["hdd"] + kinds + (["xml-unordered"] if order != sorted(order) else []) + ([f"depth{len(r['chain'])}"] if len(r["chain"]) > 1 else []),
+              {"branches": ["hdd"] + kinds + heads + (["xml-unordered"] if order != sorted(order) else []) + ([f"depth{len(r['chain'])}"] if len(r["chain"]) > 1 else []),
                "crosses": crosses, "in_scope": True, "n": len(r["storages"]), "tokens": toks})
     b.t = t
     return b
@@ -298,11 +332,26 @@ def search(seed, broken, budget):
         r = gen_hdd.gen_recipe(rng, "quick", max_depth=2, nst=rng.choice([2, 3, 4]), disorder=0.85)
         cases.append({"id": f"sh{i}", "fam": "hdd", "recipe": r, "align": rng.choice([8192, 512, 65536]),
                       "queries": [["s", 0, 2]] + gen_hdd.gen_queries(rng, gen_hdd.Truth(r), 10)})
+    cases += plain_head_cases(seed + 1000, "quick", tag="shp")
     return cases
 
 
-# ---- adapters used by C08 / C13
+# ---- adapters used by C08 / C13 (fam "hdd": a split disk opened through its directory, C08)
 def open_impl(case, built):
+    if case.get("fam") == "hdd":
+        import os
+        import shutil
+        import tempfile
+        from pathlib import Path
+
+        from dissect.hypervisor.disk.hdd import HDD
+        tmp = tempfile.mkdtemp(prefix="hvc06.")
+        try:
+            d = os.path.join(tmp, "x.pvm", "x.hdd")
+            built.t.write_dir(d)
+            return HDD(Path(d)).open()          # every image file is open when this returns
+        finally:
+            shutil.rmtree(tmp, ignore_errors=True)
     from dissect.hypervisor.disk.hdd import HDS
     stream = None
     for k in range(len(built.files)):
@@ -311,15 +360,26 @@ def open_impl(case, built):
 
 
 def stream_prefix(case, built):
+    if case.get("fam") == "hdd":
+        st = built.info["tokens"]
+        return f"hdd.stream {case['align']} {len(st)} " + " ".join(st)
     ids = [f"l{k}" for k in range(len(built.files))]
     return f"hds.stream {case['align']} {len(ids)} " + " ".join(ids)
 
 
 def open_line(case, built):
+    if case.get("fam") == "hdd":
+        # wf = the hypotheses of storage_concat_read_any_order (HvProps/C10.lean) hold for this directory
+        st = built.info["tokens"]
+        return f"hdd.concatcheck {case['align']} {len(st)} " + " ".join(st)
     ids = [f"l{k}" for k in range(len(built.files))]
     return f"hds.open {case['align']} " + " ".join(ids)
 
 
 def truth_reader(case):
+    if case.get("fam") == "hdd":
+        import gen_hdd
+        t = gen_hdd.Truth(case["recipe"])
+        return t.size, t.read, 512
     t = Truth(case["recipe"])
     return t.size, t.read, 512
